@@ -439,4 +439,50 @@ example : ∃ p', srun true { st := finalize 12 2 9 } exSOps = some p' ∧ SftEq
   obtain ⟨p', hp⟩ := Option.isSome_iff_exists.1 h
   exact ⟨p', hp, sft_matches_descriptor_init_debug hp⟩
 
+/-- Executable version of `ZeroSafe`. -/
+def zeroSafeB (debug : Bool) : PR → List SOp → Bool
+  | _, [] => true
+  | p, op :: ops =>
+    (match op with
+      | .grow _ _ k => decide ((p.st.fl.alloc k).1 ≠ some 0)
+      | _ => true) &&
+    match sstep debug p op with
+    | none => true
+    | some p' => zeroSafeB debug p' ops
+
+theorem zeroSafe_of_zeroSafeB {debug : Bool} : ∀ (ops : List SOp) {p : PR},
+    zeroSafeB debug p ops = true → ZeroSafe debug p ops
+  | [], _, _ => trivial
+  | op :: ops, p, h => by
+    simp only [zeroSafeB, Bool.and_eq_true] at h
+    refine ⟨?_, ?_⟩
+    · cases op with
+      | grow sp d k => simpa using h.1
+      | release sp c => trivial
+      | releaseAll sp => trivial
+    · cases hs : sstep debug p op with
+      | none => trivial
+      | some p' =>
+        rw [hs] at h
+        exact zeroSafe_of_zeroSafeB ops h.2
+
+/-- `ZeroSafe` holds for the example history without debug assertions, so `sft_matches_descriptor_init`
+applies in release mode too. -/
+example : ZeroSafe false { st := finalize 12 2 9 } exSOps := zeroSafe_of_zeroSafeB _ (by decide +kernel)
+
+example : ∃ p', srun false { st := finalize 12 2 9 } exSOps = some p' ∧ SftEq p'.st := by
+  have h : (srun false { st := finalize 12 2 9 } exSOps).isSome = true := by decide +kernel
+  obtain ⟨p', hp⟩ := Option.isSome_iff_exists.1 h
+  exact ⟨p', hp, sft_matches_descriptor_init (zeroSafe_of_zeroSafeB _ (by decide +kernel)) hp⟩
+
+/-- Why `ZeroSafe` is there: WITHOUT debug assertions and OUTSIDE the protocol (space 0 releases chunk 0,
+which it never owned: the blocked-out bottom of the map becomes free) the region map hands out chunk 0,
+`allocate_contiguous_chunks` writes its descriptor, and the caller takes the zero address for
+"exhausted" and skips `grow_space`: `sft 0 = 0` but `desc 0 = 4`.  With debug assertions the same
+history panics (`debug_assert!(chunk != 0)`); under C29's invariant it cannot happen
+(`alloc_ne_zero_of_inv`). -/
+example : (srun false { st := finalize 12 2 9 } [.release 0 0, .grow 0 4 1]).map
+    (fun p => (p.st.sft 0, p.st.desc 0)) = some (0, 4) := by decide +kernel
+example : (srun true { st := finalize 12 2 9 } [.release 0 0, .grow 0 4 1]).isSome = false := by decide +kernel
+
 end Mmtk.Map32
